@@ -769,6 +769,11 @@ func findResolved(unresolved []*usesUnresolved, target *Uses) *usesResolved {
 }
 
 func (r *resolver) cloneDefs(parent HasDataDefinitions, defs []Definition, when *When) []Definition {
+	if when != nil {
+		handedDown := *when
+		handedDown.fromAncestor = true
+		when = &handedDown
+	}
 	copy := make([]Definition, len(defs))
 	for i, d := range defs {
 		copy[i] = d.(cloneable).clone(parent).(Definition)
@@ -908,6 +913,12 @@ func (r *resolver) expandAugment(y *Augment, parent Meta) error {
 	for _, orig := range y.DataDefinitions() {
 		var err error
 		d := orig.(cloneable).clone(target).(Definition)
+		if hw, hasWhen := d.(HasWhen); hasWhen && y.when != nil && hw.When() == nil {
+			// the when of the augment is about every node it adds
+			handedDown := *y.when
+			handedDown.fromAncestor = true
+			hw.setWhen(&handedDown)
+		}
 		if targetIsChoice {
 			if cs, isCase := d.(*ChoiceCase); isCase {
 				if err = targetChoice.addCase(cs); err != nil {
